@@ -155,7 +155,16 @@ def record(src):
         omit = src.get('vs', 0) % 2 == 1
         for key, fn in (('full', c.evaluate_full_circuit), ('circ', c.evaluate_circuit), ('outs', c.evaluate_circuit_outputs)):
             try:
-                d = fn({k_: v_ for k_, v_ in asg.items() if not (omit and digits[c.inputs.index(k_)] == 2)})
+                arg = {k_: v_ for k_, v_ in asg.items() if not (omit and digits[c.inputs.index(k_)] == 2)}
+                # every third circuit: the assignment went through copy.deepcopy / pickle (its Undefined markers are then
+                # equal to, not identical with, the library's)
+                if src.get('vs', 0) % 3 == 1:
+                    import copy as _copy
+                    arg = _copy.deepcopy(arg)
+                elif src.get('vs', 0) % 3 == 2 and src.get('vs', 0) % 2 == 0:
+                    import pickle as _pickle
+                    arg = _pickle.loads(_pickle.dumps(arg))
+                d = fn(arg)
             except Exception:
                 d = None
             for l in res[key]:
